@@ -890,7 +890,7 @@ def filter_literal(
         if value.denominator == 1:
             expr = "{}.0".format(value.numerator)
         else:
-            expr = "({}.0 / {}.0)".format(value.numerator, value.denominator)
+            expr = _float_division_expr(value)
         cast = filter_type_from_primitive(language, ty)
         return cast_format.format(type=cast, value=expr)
 
@@ -1100,3 +1100,16 @@ def filter_is_zero_cost_primitive(language: Language, t: pydsdl.PrimitiveType) -
 
     """
     return str(is_zero_cost_primitive(language, t))
+
+
+def _float_division_expr(value: fractions.Fraction) -> str:
+    """
+    Renders a non-integral rational as a C expression of type double. Normally this is the exact division
+    "(N.0 / D.0)"; when an operand is too large to be a double constant itself (e.g. the denominator of a subnormal
+    such as 2.2250738585072014e-308 is about 5e323: compilers reject or evaluate such a constant to infinity) the
+    correctly rounded value is rendered instead using its shortest round-trip decimal form.
+    """
+    limit = 2**1023
+    if abs(value.numerator) < limit and value.denominator < limit:
+        return "({}.0 / {}.0)".format(value.numerator, value.denominator)
+    return repr(float(value))
